@@ -144,6 +144,28 @@ def validate(ctx, trs, sigprefix='cross:trace'):
     return verdicts
 
 
+def validate_repo_tests(ctx):
+    """code -> spec on the repository's own cross tests: sizes-only traces against the count abstraction CrossCounts
+    (Cross refines CrossCounts: PROPERTY Refines in MC_Cross_q0.cfg)."""
+    from . import main, repo_tests
+    tr, note = repo_tests.record(main.REPO, ['test/test_cross.py'])
+    ctx.notes['repo_tests'] = note
+    trs = tr.get('cross', [])
+    if not trs:
+        return
+    verdicts, st, gen, runs = traces.validate('Trace_CrossCounts', trs, cfg='Trace_CrossCounts.cfg', diag_cfg='Trace_CrossCounts_diag.cfg')
+    for r_ in runs:
+        ctx.add_tlc(r_, 'trace validation (Trace_CrossCounts), %d executions of test/test_cross.py' % len(trs))
+    for i, (t, v) in enumerate(zip(trs, verdicts)):
+        ctx.case(key=('repo-test', i, t['cfg']), nontrivial=t['ev'][-1].get('stop') in ('m', 'func'),
+                 sample={'repo_test_cfg': t['cfg'], 'events': len(t['ev']), 'final': t['ev'][-1]})
+        if v['ok']:
+            ctx.trace_ok()
+        else:
+            ctx.violation('cross:repo-test-trace', 'execution %d of test/test_cross.py is not a behaviour of CrossCounts (%s); cfg=%s' % (i, v['why'], t['cfg']),
+                          case={'cfg': t['cfg'], 'events': t['ev']})
+
+
 def run(ctx):
     ctx.rule = ('cases = fault scripts replayed (spec->code) + recorded executions validated (code->spec); '
                 'non-trivial = distinct (configuration, fault script) whose interruption falls inside a half-sweep '
@@ -156,6 +178,7 @@ def run(ctx):
     replay_scripts(ctx)
     trs = collect_traces(ctx)
     validate(ctx, trs)
+    validate_repo_tests(ctx)
 
 
 def selftest(ctx):
